@@ -220,16 +220,22 @@ class Tensor(Funsor, metaclass=TensorMeta):
 
         # Handle diagonal variable substitution, including renaming or slicing
         # onto a name that remains an input while the rest of subs is applied.
-        name_counts = Counter(
-            subs[k].name if isinstance(subs.get(k), (Variable, Slice)) else k
-            for k in self.inputs
-        )
+        renames = {k: v for k, v in subs.items() if isinstance(v, (Variable, Slice))}
+        while renames:
+            name_counts = Counter(
+                renames[k].name if k in renames else k for k in self.inputs
+            )
+            clashes = [k for k, v in renames.items() if name_counts[v.name] > 1]
+            if not clashes:
+                break
+            for k in clashes:
+                del renames[k]
         subs = OrderedDict(
             (
                 k,
                 (
                     self.materialize(v)
-                    if isinstance(v, (Variable, Slice)) and name_counts[v.name] > 1
+                    if isinstance(v, (Variable, Slice)) and k not in renames
                     else v
                 ),
             )
